@@ -1,5 +1,5 @@
 /*
- * models/aws_fmt.h -- ghost state of the asprintf model (models/aws_fmt.c): one record per successful call.
+ * models/aws_fmt.h -- ghost state of the asprintf model (models/aws_fmt.c): one record per call.
  */
 #ifndef AWS_FMT_H_
 #define AWS_FMT_H_
@@ -8,7 +8,7 @@
 #include "aws_stream.h"
 
 #ifndef AWS_NREC
-#define AWS_NREC 4		/* successful asprintf calls that can be recorded (a front end makes 4) */
+#define AWS_NREC 4		/* asprintf calls that can be recorded (a front end makes at most 4) */
 #endif
 #ifndef AWS_FMTMAX
 #define AWS_FMTMAX 320		/* longest format string */
@@ -19,6 +19,7 @@
 
 struct aws_fmt_rec {
 	struct aws_stream s;		/* what was asked to be printed, in normal form */
+	int failed;			/* the call returned -1 */
 	size_t len;			/* rendered length */
 	const char * result;		/* the block handed to the caller */
 	uint8_t snap[AWS_OUTMAX];	/* its bytes at that moment */
